@@ -70,7 +70,37 @@ pub mod ext_time {
     pub assume_specification [Instant::saturating_duration_since] (i: &Instant, earlier: Instant) -> (r: Duration)
         ensures dur_ns(r) == sat_since(*i, earlier);
 
+    // ---- parts of the std time API that the unchanged tree does not use but an edit may plausibly start to use (ASSUMED,
+    // standard meaning over the nanosecond views): an edit that introduces one of them is then decided, not undecided
+    pub assume_specification [Instant::duration_since] (i: &Instant, earlier: Instant) -> (r: Duration)
+        ensures dur_ns(r) == sat_since(*i, earlier);
+    pub assume_specification [Instant::checked_duration_since] (i: &Instant, earlier: Instant) -> (r: Option<Duration>)
+        ensures match r {
+            Some(d) => nanos(*i) >= nanos(earlier) && dur_ns(d) == nanos(*i) - nanos(earlier),
+            None => nanos(*i) < nanos(earlier),
+        };
+    pub assume_specification [Duration::from_secs] (x: u64) -> (r: Duration) ensures dur_ns(r) == x as int * 1_000_000_000;
+    pub assume_specification [Duration::from_millis] (x: u64) -> (r: Duration) ensures dur_ns(r) == x as int * 1_000_000;
+    pub assume_specification [Duration::from_micros] (x: u64) -> (r: Duration) ensures dur_ns(r) == x as int * 1_000;
+    pub assume_specification [Duration::from_nanos] (x: u64) -> (r: Duration) ensures dur_ns(r) == x as int;
+    pub assume_specification [Duration::as_secs] (d: &Duration) -> (r: u64) ensures r as int == dur_ns(*d) / 1_000_000_000;
+    pub assume_specification [Duration::as_millis] (d: &Duration) -> (r: u128) ensures r as int == dur_ns(*d) / 1_000_000;
+    pub assume_specification [Duration::as_micros] (d: &Duration) -> (r: u128) ensures r as int == dur_ns(*d) / 1_000;
+    pub assume_specification [Duration::as_nanos] (d: &Duration) -> (r: u128) ensures r as int == dur_ns(*d);
+    pub assume_specification [Duration::is_zero] (d: &Duration) -> (r: bool) ensures r == (dur_ns(*d) == 0);
+    /// ASSUMED: a duration is never negative
+    #[verifier::external_body]
+    pub broadcast proof fn axiom_duration_nonneg(d: Duration)
+        ensures #[trigger] dur_ns(d) >= 0,
+    {}
+
     // ---- BinaryHeap
+    pub assume_specification<T, A: std::alloc::Allocator> [BinaryHeap::<T, A>::is_empty] (h: &BinaryHeap<T, A>) -> (r: bool)
+        ensures r == (heap_view(h).len() == 0);
+    pub assume_specification<T, A: std::alloc::Allocator> [BinaryHeap::<T, A>::len] (h: &BinaryHeap<T, A>) -> (r: usize)
+        ensures r == heap_view(h).len();
+    pub assume_specification<T, A: std::alloc::Allocator> [BinaryHeap::<T, A>::clear] (h: &mut BinaryHeap<T, A>)
+        ensures heap_view(final(h)) == Multiset::<T>::empty();
     pub uninterp spec fn heap_view<T, A: std::alloc::Allocator>(h: &BinaryHeap<T, A>) -> Multiset<T>;
 
     pub assume_specification<T> [BinaryHeap::<T>::new] () -> (r: BinaryHeap<T>)
